@@ -23,6 +23,7 @@ Inductive op :=
 | PollNoChange (ts : Z)
 | PollFailed                       (* transport error, or an answer that cannot be converted *)
 | Register (tp : nat)
+| RegisterRefused                  (* a registration the agent cannot interpret: refused, nothing stored *)
 | Unregister (h : nat)
 | RunTask (k : nat).               (* one of the first two pending tasks performs its installation *)
 
@@ -55,6 +56,7 @@ Definition step (fresh : bool) (s : svc) (o : op) : svc :=
       {| polled := polled s; hash := hash s; last_update := ts; custom := custom s; next_handle := next_handle s;
          installed := installed s; pending := pending s |}
   | PollFailed => s
+  | RegisterRefused => s
   | Register tp =>
       let s1 := {| polled := polled s; hash := hash s; last_update := last_update s;
                    custom := custom s ++ [(next_handle s, tp)]; next_handle := S (next_handle s);
